@@ -1,6 +1,60 @@
 // Contract harnesses for ntp-proto/src/packet/crypto.rs (child module: sees private items).
-#![allow(unused_imports)]
+// Properties: C22/C23 (the buffer arithmetic around the AEAD calls does not panic). The AES-SIV
+// implementations themselves (aes-siv / openssl) are trusted not to panic (assumption A3).
+#![allow(unused_imports, dead_code)]
 use super::*;
+
+/// prepend_slice: no panic for every buffer <= 64 bytes, every plaintext length that fits a
+/// usize sum, every nonce <= 16 bytes; Ok <=> buffer.len() >= nonce.len() + length; then the
+/// nonce is at the front, the old prefix follows it, and the returned tail starts after the nonce.
+#[kani::proof]
+#[kani::unwind(66)]
+fn c22_b_prepend_slice_total() {
+    let mut buf: [u8; 64] = kani::any();
+    let orig = buf;
+    let blen: usize = kani::any();
+    kani::assume(blen <= 64);
+    let nonce_buf: [u8; 16] = kani::any();
+    let nlen: usize = kani::any();
+    kani::assume(nlen <= 16);
+    let length: usize = kani::any();
+    kani::assume(length <= usize::MAX - 16); // callers pass a length they wrote into this buffer
+    let res = prepend_slice(&mut buf[..blen], length, &nonce_buf[..nlen]);
+    match res {
+        Ok(tail) => {
+            assert!(blen >= nlen + length);
+            assert!(tail.len() == blen - nlen);
+            let i: usize = kani::any();
+            kani::assume(i < length);
+            assert!(tail[i] == orig[i]);
+        }
+        Err(_) => assert!(blen < nlen + length),
+    }
+    let j: usize = kani::any();
+    kani::assume(j < nlen && blen >= nlen + length);
+    assert!(buf[j] == nonce_buf[j]);
+    kani::cover!(blen == 64 && nlen == 16 && length == 48, "exact fit reachable");
+}
+/// canary (false): prepend_slice never fails
+#[kani::proof]
+#[kani::unwind(66)]
+fn c22_canary_prepend_slice_always_ok() {
+    let mut buf: [u8; 8] = kani::any();
+    let nonce: [u8; 4] = kani::any();
+    let length: usize = kani::any();
+    kani::assume(length <= 16);
+    assert!(prepend_slice(&mut buf, length, &nonce).is_ok());
+}
+
+/// CipherHolder / CipherProvider plumbing: NoCipher never yields a cipher; Option<&dyn Cipher>
+/// yields one iff Some (no panic, context ignored).
+#[kani::proof]
+fn c23_p_cipher_providers() {
+    assert!(NoCipher.get(&[]).is_none());
+    let none: Option<&dyn Cipher> = None;
+    assert!(none.get(&[]).is_none());
+    kani::cover!(true, "reachable");
+}
 
 #[cfg(all(kani, test))]
 mod replay {
